@@ -18,14 +18,16 @@ import Paroxy.Proofs.GlueCount
 namespace Paroxy.Props.C12
 open Paroxy Paroxy.Hints Paroxy.Glue
 
+variable {O : CharOracle}
+
 /-! ## Round trip: decorate → `get_program` -/
 
 /-- Hygiene of the lines, whatever the spelling of the markers: code lines are single lines without
 trailing white space and without any look-alike of the marker (`(?i)#\s*paroxython\s*:`), not blank
 when they carry hints; labels start with a word character, contain neither white space nor `#`,
 do not end with an ellipsis. -/
-def linesOk (d : Decorated) : Bool :=
-  (codeLines d).all okCode && (wholeLabels d).all cleanLabel && looseOk d
+def linesOk (O : CharOracle) (d : Decorated) : Bool :=
+  (codeLines d).all (okCode O) && (wholeLabels d).all (cleanLabel O) && (looseOk O) d
 
 /-- **C12 (round trip).** For every decorated program `d` — code lines with trailing hints in any
 tolerated spelling (`+` optional, `…`, several spaces, several hints per line), hints alone on a
@@ -43,11 +45,11 @@ and deletion on the same line — on such a tie the code closes the addition fir
 of the two openings on the line, which is the LIFO reading of `-L... L...` but not of `L... -L...`
 (`C12_roundtrip_needs_noTie`). -/
 theorem C12_roundtrip (d : List (Line × MarkerStyle)) (r : Str → List SSpan)
-    (hlines : linesOk (d.map Prod.fst) = true)
+    (hlines : (linesOk O) (d.map Prod.fst) = true)
     (hcode : (codeLines (normalised d)).isEmpty = false)
     (hbal : ∀ L, Bal (events (normalised d) L) (r L))
     (hnotie : ∀ L, noTie (events (normalised d) L) = true) :
-    ∃ p, getProgram (decorateS d) = .ok p ∧ p.source = stripPy (joinNL (base (normalised d))) ∧
+    ∃ p, (getProgram O) (decorateS d) = .ok p ∧ p.source = (stripPy O) (joinNL (base (normalised d))) ∧
       (∀ L s e, p.addition.count L (s, e) = (r L).count (false, s, e)) ∧
       (∀ L s e, p.deletion.count L (s, e) = (r L).count (true, s, e)) := by
   have hok := linesOk_of _ hlines
@@ -64,7 +66,7 @@ theorem C12_roundtrip (d : List (Line × MarkerStyle)) (r : Str → List SSpan)
         (mem_codeLines_iff _ c).mpr (hsub.subset ((mem_codeLines_iff _ c).mp (by rw [hc]; simp)))
       rw [e] at this; cases this
   have hprep := prepare_decorateS d hok hne1
-  have hy : Hyg (normalised d) := hyg_core2 (trimmed d) okt hwt hne2
+  have hy : (Hyg O) (normalised d) := hyg_core2 (trimmed d) okt hwt hne2
   obtain ⟨p, h1, h2, h3, h4⟩ :=
     getProgram_decorate (normalised d) r hy hbal (fun L => noTie_of _ (hnotie L))
   refine ⟨p, ?_, h2, fun L s e => h3 L (s, e), fun L s e => h4 L (s, e)⟩
@@ -76,8 +78,8 @@ theorem C12_roundtrip (d : List (Line × MarkerStyle)) (r : Str → List SSpan)
 /-- **C12 (marker spelling).** `# paroxython:` is neither space- nor case-sensitive: whatever the
 spelling of each marker, `get_program` answers as for the normalised spelling. -/
 theorem C12_marker_tolerance (d : List (Line × MarkerStyle))
-    (hlines : linesOk (d.map Prod.fst) = true) (hne : (codeLines (trimmed d)).isEmpty = false) :
-    getProgram (decorateS d) = getProgram (decorateS (d.map fun p => (p.1, {}))) := by
+    (hlines : (linesOk O) (d.map Prod.fst) = true) (hne : (codeLines (trimmed d)).isEmpty = false) :
+    (getProgram O) (decorateS d) = (getProgram O) (decorateS (d.map fun p => (p.1, {}))) := by
   have hne' : codeLines (trimmed d) ≠ [] := by simpa using hne
   have e : trimmed (d.map fun p => (p.1, ({} : MarkerStyle))) = trimmed d := by
     simp [trimmed, List.map_map, Function.comp_def]
@@ -153,7 +155,7 @@ def manualExample : List (Line × MarkerStyle) :=
 
 /-- Non-vacuity of `C12_roundtrip`: the example is hygienic, and its marks are properly nested
 (shown for the four labels it mentions; for every other label there is no mark at all). -/
-example : linesOk (manualExample.map Prod.fst) = true := by decide
+example : (linesOk asciiOracle) (manualExample.map Prod.fst) = true := by decide
 example : (codeLines (normalised manualExample)).isEmpty = false := by decide
 example : balSpans (events (normalised manualExample) "loop:for".toList) = some [(true, 1, 3)] := by decide
 example : balSpans (events (normalised manualExample) "amoeboid_protist".toList) = some [(false, 1, 3)] := by decide
@@ -169,7 +171,7 @@ for am in ifera: #  Paroxython :-loop:for... +amoeboid_protist...
     eat() # paroxython: ...loop:for …amoeboid_protist
 ⏎
 ``` -/
-example : getProgram (decorateS manualExample) = .ok
+example : (getProgram asciiOracle) (decorateS manualExample) = .ok
     ⟨"for am in ifera:\n    catch(a + b)\n    eat()".toList,
      [("concatenation_operator".toList, [(2, 2)]), ("amoeboid_protist".toList, [(1, 3)]),
       ("meta/topic/fun".toList, [(1, 3)])],
@@ -178,7 +180,7 @@ example : getProgram (decorateS manualExample) = .ok
 /-- **C12 (shape of a schedule).** Whatever the text, a schedule returned by `get_program` is a
 dictionary: label names are distinct, and each label's list of spans is sorted. Together with the
 counts of `C12_roundtrip` this determines `Program.addition` / `Program.deletion` completely. -/
-theorem C12_schedule_shape (src : Str) (p : Program) (h : getProgram src = .ok p) :
+theorem C12_schedule_shape (src : Str) (p : Program) (h : (getProgram O) src = .ok p) :
     (p.addition.map (·.1)).Nodup ∧ (p.deletion.map (·.1)).Nodup ∧
       (∀ e ∈ p.addition, e.2.Pairwise (fun a b => spanLe a b = true)) ∧
       (∀ e ∈ p.deletion, e.2.Pairwise (fun a b => spanLe a b = true)) := by
@@ -218,8 +220,8 @@ theorem C12_schedule_shape (src : Str) (p : Program) (h : getProgram src = .ok p
 /-- `noTie` cannot be dropped: here is the round-trip statement (normalised spellings) without it … -/
 def C12_roundtrip_without_noTie : Prop :=
   ∀ (d : Decorated) (r : Str → List SSpan),
-    (linesOk d && hygienic d) = true → (∀ L, Bal (events d L) (r L)) →
-    ∃ p, getProgram (decorate d) = .ok p ∧
+    ((linesOk asciiOracle) d && (hygienic asciiOracle) d) = true → (∀ L, Bal (events d L) (r L)) →
+    ∃ p, (getProgram asciiOracle) (decorate d) = .ok p ∧
       (∀ L s e, p.addition.count L (s, e) = (r L).count (false, s, e)) ∧
       (∀ L s e, p.deletion.count L (s, e) = (r L).count (true, s, e))
 
@@ -250,7 +252,7 @@ theorem C12_roundtrip_needs_noTie : ¬ C12_roundtrip_without_noTie := by
       · simp only [hL, if_true, r]
         exact .pair (u := [Ev.opn true 1, Ev.cls 2]) (w := []) (.pair (u := []) (w := []) .nil .nil) .nil
       · simp only [hL, if_false, r]; exact .nil)
-  have hreal : getProgram (decorate tieProgram) =
+  have hreal : (getProgram asciiOracle) (decorate tieProgram) =
       .ok ⟨['x', '\n', 'y', '\n', 'z'], [(foo, [(1, 2)])], [(foo, [(1, 3)])]⟩ := by rfl
   rw [hreal] at hp
   cases hp
@@ -265,20 +267,20 @@ theorem C12_roundtrip_needs_noTie : ¬ C12_roundtrip_without_noTie := by
 rejected by the token regex (or has the illegal form `...L...`), or for some label a closing mark
 has no opening mark still open before it, or an opening mark is never closed, then `get_program`
 raises `ValueError` — it never returns a schedule, and raises nothing else. -/
-theorem C12_malformed (src c : Str) (hc : centrifugate (prepare src) = .ok c) (hm : Malformed (hintToks c)) :
-    getProgram src = .error .valueError := by
+theorem C12_malformed (src c : Str) (hc : (centrifugate O) ((prepare O) src) = .ok c) (hm : (Malformed O) ((hintToks O) c)) :
+    (getProgram O) src = .error .valueError := by
   unfold getProgram getProgramFrom
   simp only [hc]
-  cases hcol : collectHints c with
+  cases hcol : (collectHints O) c with
   | ok r => exact absurd hm (collectToks_ok_not_malformed _ r hcol)
   | error e => rw [collectToks_error_value _ e hcol]
 
 /-- The only other exception of `get_program` is the `IndexError` of a text made only of hints
 alone on their line (no line is left to carry them): every error is one of the two. -/
-theorem C12_error_classes (src : Str) (e : Err) (h : getProgram src = .error e) :
-    e = .valueError ∨ (e = .indexError ∧ centrifugate (prepare src) = .error .indexError) := by
+theorem C12_error_classes (src : Str) (e : Err) (h : (getProgram O) src = .error e) :
+    e = .valueError ∨ (e = .indexError ∧ (centrifugate O) ((prepare O) src) = .error .indexError) := by
   unfold getProgram getProgramFrom at h
-  cases hc : centrifugate (prepare src) with
+  cases hc : (centrifugate O) ((prepare O) src) with
   | error e' =>
     simp only [hc] at h; cases h
     cases e
@@ -286,7 +288,7 @@ theorem C12_error_classes (src : Str) (e : Err) (h : getProgram src = .error e) 
     · exact Or.inr ⟨rfl, rfl⟩
   | ok c =>
     simp only [hc] at h
-    cases hcol : collectHints c with
+    cases hcol : (collectHints O) c with
     | ok r => obtain ⟨a, d⟩ := r; simp [hcol] at h
     | error e' =>
       simp only [hcol] at h; cases h
@@ -294,16 +296,16 @@ theorem C12_error_classes (src : Str) (e : Err) (h : getProgram src = .error e) 
 
 /-- The executable form the driver evaluates (`c12.spec_malformed`) is sound for the hypothesis
 above, so a `true` answer of the driver is an instance of the theorem. -/
-theorem C12_spec_malformed_sound (toks : List (Nat × Str)) (h : malformedB toks = true) : Malformed toks :=
+theorem C12_spec_malformed_sound (toks : List (Nat × Str)) (h : (malformedB O) toks = true) : (Malformed O) toks :=
   malformed_of_B toks h
 
 /-- Non-vacuity: an unmatched closing mark, a rejected token, a label opened for addition and
 deletion on one line and closed once (the `TypeError` of the unrepaired tree). -/
-example : malformedB (hintToks "x = 1 # paroxython: ...foo".toList) = true := by decide
-example : malformedB (hintToks "x = 1 # paroxython: +-foo".toList) = true := by decide
-example : getProgram "x = 1\n# paroxython: -foo".toList = .error .valueError := by rfl
-example : getProgram "a # paroxython: foo... -foo...\nb # paroxython: ...foo".toList = .error .valueError := by rfl
-example : getProgram "# paroxython: foo".toList = .error .indexError := by rfl
+example : (malformedB asciiOracle) ((hintToks asciiOracle) "x = 1 # paroxython: ...foo".toList) = true := by decide
+example : (malformedB asciiOracle) ((hintToks asciiOracle) "x = 1 # paroxython: +-foo".toList) = true := by decide
+example : (getProgram asciiOracle) "x = 1\n# paroxython: -foo".toList = .error .valueError := by rfl
+example : (getProgram asciiOracle) "a # paroxython: foo... -foo...\nb # paroxython: ...foo".toList = .error .valueError := by rfl
+example : (getProgram asciiOracle) "# paroxython: foo".toList = .error .indexError := by rfl
 
 /-! ## Scheduled deletions and additions in the parser -/
 
